@@ -118,6 +118,40 @@ func (g *gen) clientHist(depth int) {
 			}
 		}
 	}
+	// L2: Start's own first Write blocks; meanwhile up to two other events; then the Write returns
+	for _, c := range []cfg{{2, 0, 1}, {0, 1, 0}} {
+		mid := []func(hn *int){
+			func(hn *int) { g.emit("CL deliver %s", showHex(respFor(ids[0], 1))) },
+			func(hn *int) { g.emit("CL deliver %s", showHex([]byte{0, 1, 2, 3, 4, 5})) },
+			func(hn *int) { g.emit("CL start %s %s %d", showHex(ids[1]), showHex(reqFor(ids[1], 28, 1)), *hn); *hn++ },
+			func(hn *int) { g.emit("CL deliver %s", showHex(respFor(ids[1], 1))) },
+			func(hn *int) { g.emit("CL tick 101") },
+		}
+		var seqs [][]int
+		seqs = append(seqs, nil)
+		for a := range mid {
+			seqs = append(seqs, []int{a})
+			for b := range mid {
+				seqs = append(seqs, []int{a, b})
+			}
+		}
+		for _, sq := range seqs {
+			for _, rel := range []string{"ok", "fail"} {
+				g.caseMark("client-l2s", cnt)
+				cnt++
+				g.emit("CL new 100 %d %d %d 0 0", c.att, c.noclose, c.fb)
+				hn := 2
+				g.emit("CL startb %s %s 1", showHex(ids[0]), showHex(reqFor(ids[0], 28, 1)))
+				for _, i := range sq {
+					mid[i](&hn)
+				}
+				g.emit("CL release %s", rel)
+				g.emit("CL deliver %s", showHex(respFor(ids[0], 2)))
+				g.emit("CL tick 100000")
+				g.emit("CL close")
+			}
+		}
+	}
 	// long random histories: many ids, message sizes up to 65535, RTO changes, attempt limits 0..8, close errors
 	nrand := 150
 	if g.tier == "thorough" {
